@@ -9,6 +9,8 @@ CLAIMED = {
     "C06": dict(technique=T_E2 + "; solver-checked simulation relation between the validator's DFA step and a reference DFA (all 256 bytes per state pair), plus bounded all-strings check", design_ref="DESIGN.md 5/C06"),
     "C07": dict(technique=T_E2 + "; reference decoding of the bytes written, transport event-log order", design_ref="DESIGN.md 5/C07"),
     "C08": dict(technique=T_E2 + "; call/event histories as solver choices, close status a solver integer, virtual time as solver reals", design_ref="DESIGN.md 5/C08"),
+    "C13": dict(technique=T_E2 + "; real run_forever on a virtual-time kernel, arrival times as solver reals, callback trace vs reference", design_ref="DESIGN.md 5/C13"),
+    "C14": dict(technique=T_E2 + "; every ending kind and a second thread released at a symbolic yield point on the virtual-time kernel; step budget as termination witness", design_ref="DESIGN.md 5/C14"),
     "C12": dict(technique=T_E2 + " for short writes; z3 integer-order query over lock/write event traces extracted from the real code for ALL thread interleavings, replayed with real threads", design_ref="DESIGN.md 5/C12"),
 }
 _PENDING = "check not built yet in this revision (planned: see DESIGN.md section 5)"
